@@ -10,7 +10,28 @@ import vlib
 
 # ----------------------------------------------------------------------------- value encoding (ops travel as JSON)
 
+class Stub:
+    """a value no colour parser can read, inside a colour sequence: "nocopy" cannot be copied or pickled (like a generator, a
+    lock, an open file), "ident" can but compares by identity (like object()).  The repr is stable."""
+
+    def __init__(self, kind):
+        self.kind = kind
+
+    def __repr__(self):
+        return "<stub %s>" % self.kind
+
+    def __deepcopy__(self, memo):
+        if self.kind == "nocopy":
+            raise TypeError("cannot copy 'stub' object")
+        return Stub(self.kind)
+
+    def __copy__(self):
+        return self.__deepcopy__({})
+
+
 def enc(v):
+    if isinstance(v, Stub):
+        return {"o": v.kind}
     """python value -> JSON-able tagged form (tuples, lists, floats incl. nan/inf, None, bools, strings)."""
     if isinstance(v, bool) or v is None or isinstance(v, str):
         return v
@@ -35,7 +56,16 @@ def dec(v):
             return tuple(dec(x) for x in v["t"])
         if "l" in v:
             return [dec(x) for x in v["l"]]
+        if "o" in v:
+            return Stub(v["o"])
     return v
+
+
+def _eq(a, b):
+    try:
+        return bool(a == b)
+    except Exception:
+        return False
 
 
 def krepr(*parts):
@@ -134,6 +164,7 @@ def run_ops(ops, observe_env=False, tag=""):
     objs = {}
     out = []
     shared = {}
+    ncall = [0, 0]
 
     def D(v):
         """decode; a LIST value that occurs several times in one behaviour is one and the same object every time (a caller
@@ -214,6 +245,9 @@ def run_ops(ops, observe_env=False, tag=""):
             ev = {"op": "fix", "obj": oid, "mode": mode, "vr": bool(vr), "show": bool(show), "save": bool(save), "raised": "",
                   "resrepr": "None", "ok": False, "sameObj": True, "dout": 0, "newFiles": [], "modFiles": [], "css": [], "tag": tag}
             before = pair_state(o)
+            # the report cannot be written (its name is taken by a directory): the call may raise the OS's error - if it returns,
+            # everything the properties say about a returned answer still holds, and nothing is written anywhere else
+            ev["fault"] = bool(save) and os.path.isdir("cm_colors_quick_report.html")
             try:
                 with EnvWatch(observe_env) as w:
                     kw = {}
@@ -221,7 +255,12 @@ def run_ops(ops, observe_env=False, tag=""):
                         kw["show"] = True
                     if save:
                         kw["save_report"] = True
-                    ret = o.make_readable(mode=mode, very_readable=vr, **kw)
+                    ncall[0] += 1
+                    if ncall[0] % 3 == 2:
+                        # the documented parameter order, given by position: make_readable(mode, very_readable, show, save_report)
+                        ret = o.make_readable(mode, vr, bool(show), bool(save))
+                    else:
+                        ret = o.make_readable(mode=mode, very_readable=vr, **kw)
                 ev["dout"], ev["newFiles"], ev["modFiles"] = w.dout, w.new, w.mod
                 if isinstance(ret, tuple) and len(ret) == 2:
                     ev["resrepr"] = repr(ret[0])
@@ -240,12 +279,13 @@ def run_ops(ops, observe_env=False, tag=""):
         elif kind == "bulk":
             _, entries, mode, vr, save = op[:5]
             how = op[5] if len(op) > 5 else "list"      # how the entries are handed over: list, tuple, or a one-shot iterator
+            abort = len(op) > 6 and op[6] == "abort"
             # an entry is given either as a plain JSON list of encoded components (-> tuple entry) or as one encoded value
             # {"t": [...]} / {"l": [...]} (-> tuple / LIST entry: the entry's own container type is part of the input)
             ents = [D(e) if isinstance(e, dict) else tuple(D(x) for x in e) for e in entries]
             ents_before = repr([dec(e) if isinstance(e, dict) else tuple(dec(x) for x in e) for e in entries])
             ev = {"op": "bulk", "mode": mode, "vr": bool(vr), "save": bool(save), "raised": "", "entries": [], "results": [],
-                  "dout": 0, "newFiles": [], "modFiles": []}
+                  "dout": 0, "newFiles": [], "modFiles": [], "fault": (bool(save) and os.path.isdir("cm_colors_bulk_report.html")) or abort}
             for e in ents:
                 text, bg = e[0], e[1]
                 large = e[2] if len(e) == 3 else False
@@ -261,16 +301,26 @@ def run_ops(ops, observe_env=False, tag=""):
                 with EnvWatch(observe_env) as w:
                     kw = {"save_report": True} if save else {}
                     arg = ents if how == "list" else tuple(ents) if how == "tuple" else iter(ents) if how == "iter" else (e_ for e_ in ents)
-                    res = make_readable_bulk(arg, mode=mode, very_readable=vr, **kw)
+                    if abort:
+                        # a list whose LAST row is malformed (one element): the call may refuse the argument by raising - what it
+                        # did for the rows before must not live on in later calls
+                        arg = list(ents) + [("#123456",)]
+                    ncall[1] += 1
+                    if ncall[1] % 2 == 0:
+                        # by position: make_readable_bulk(pairs, mode, very_readable, save_report)
+                        res = make_readable_bulk(arg, mode, vr, bool(save))
+                    else:
+                        res = make_readable_bulk(arg, mode=mode, very_readable=vr, **kw)
                 ev["dout"], ev["newFiles"], ev["modFiles"] = w.dout, w.new, w.mod
                 ev["argSame"] = repr(ents) == ents_before
                 import pairs as _pairs
-                for j, r in enumerate(res):
+                for j, r in enumerate(res[:len(ents)] if abort else res):
                     col, status = (r[0], r[1]) if isinstance(r, tuple) and len(r) == 2 else (None, "malformed")
                     css, _lib = _pairs.readbacks(col) if col is not None else ([], [])
                     ent = ev["entries"][j] if j < len(ev["entries"]) else None
                     ev["results"].append({"resrepr": repr(col), "status": str(status),
-                                          "unchanged": bool(ent is not None and repr(col) == ent["textrepr"]),
+                                          "unchanged": bool(ent is not None and repr(col) == ent["textrepr"] and j < len(ents)
+                                                            and (col is ents[j][0] or _eq(col, ents[j][0]))),
                                           "css": css, "bg": ent["bgrgb"] if ent else [], "large": ent["large"] if ent else False})
             except Exception as ex:
                 ev["raised"] = type(ex).__name__
@@ -280,6 +330,16 @@ def run_ops(ops, observe_env=False, tag=""):
             tgt = os.path.join(EnvWatch.root or ".", op[1])
             os.makedirs(tgt, exist_ok=True)
             os.chdir(tgt)
+        elif kind == "block":
+            # the name of a report is taken by a DIRECTORY in the working directory: writing the report fails
+            os.makedirs(op[1], exist_ok=True)
+        elif kind == "tmpdir":
+            # the process's temporary directory lies inside the watched scratch area (so a file "rescued" there is seen)
+            tgt = os.path.join(EnvWatch.root or ".", op[1])
+            os.makedirs(tgt, exist_ok=True)
+            for k_ in ("TMPDIR", "TEMP", "TMP"):
+                os.environ[k_] = tgt
+            tempfile.tempdir = None
         elif kind == "rlimit":
             # lower the soft limit on open files: a history of many calls must not exhaust descriptors
             import resource
@@ -344,6 +404,8 @@ def to_events(raw, keys, cols):
         e = dict(r)
         if e["op"] in ("new", "bulk"):
             e["argSame"] = bool(e.get("argSame", True))
+        if e["op"] in ("fix", "bulk"):
+            e["fault"] = bool(e.get("fault", False))
         if e["op"] == "new":
             e["key"] = keys(e.pop("keyrepr"))
         elif e["op"] == "fix":
